@@ -5,7 +5,9 @@ SPEC = {
     "rule": "histories = seeded random sequences over the real RoundRobin (variant 0) or Rebalancer (variant 1) with a "
             "StickySession using RawValue | HashValue(2 salts) | AESValue(2 keys, ttl 0/1.5s/2s/5s/60s) | FallbackValue chains "
             "(2 and 3 codecs, both nestings); 11 server URLs with userinfo, query, escaped path, port, IPv6 host, fragment, "
-            "pairs sharing (scheme,host,path); ops Upsert(weight 1-3)/Remove/Tick(0.1s-61s)/Request with cookie kind none | "
+            "pairs sharing (scheme,host,path); ops Upsert(weight 0-3; weight 0 on an existing member = drain)/Remove/Tick(0.1s-61s); "
+            "drain episodes (one member or every member to Weight(0), requests with a cookie minted for the drained member, "
+            "without cookie, with an earlier Set-Cookie, then re-upsert with a positive weight); Request with cookie kind none | "
             "minted by the chain or by one of its leaves | taken from an earlier Set-Cookie | truncated | bit-flipped | "
             "re-encoded | foreign key/salt | garbage (incl. unparsable URLs); library results (url.Parse/String, fnv1a, "
             "AES-GCM+base64, Split/ParseInt, reference round-robin choice) are recorded per case as the model's oracle table; "
@@ -20,6 +22,8 @@ SPEC = {
                      "harness oracle: independent calls of net/url, fnv1a, crypto/aes+cipher, encoding/base64 and a 25-line "
                      "reference of the weighted round-robin sweep to predict NextServer()"],
     "assumptions": ["NextServer() is an arbitrary input of the model (C01/C02 own the balancer); theorems hold for every answer",
+                    "a member with weight 0 is a pool member for pinning (the model's pool ignores weights) and is never the answer "
+                    "of NextServer(); with every weight 0 a request that is not pinned gets 500",
                     "a FallbackValue chain that reuses one AES key with and without TTL is excluded from C11_expired_degrades "
                     "(the TTL-less leaf accepts the expired plaintext when the URL has a query) and is not generated",
                     "AES TTL below one second can be expired at birth (expiry truncated to whole seconds): C11_degrade_cookie_pins "
